@@ -253,7 +253,8 @@ def explore(check: Check, tier: str, seed: int, budget_s=None) -> Acc:
 def load_known():
     p = os.environ.get('VERIF_KNOWN') or os.path.join(VERIF, 'known_findings.json')
     if not os.path.exists(p): return {'known': [], 'fixed': []}
-    return json.load(open(p))
+    k = json.load(open(p))
+    return {'known': k, 'fixed': []} if isinstance(k, list) else k      # a bare list of entries is accepted too
 
 
 def tmpdir():
